@@ -52,6 +52,42 @@ class Case(object):
         return '%s %s' % (self.name, shape)
 
 
+class Borrowed(Case):
+    """the lemma cases of another property, run again under THIS property's check: a check that replaces a real function by a
+    summary or an uninterpreted function is only sound together with the lemma proving that summary on the real code, so every
+    check carries the lemmas of the stubs it uses (a change to such a leaf is then reported by every check that relies on it)."""
+    kind = 'L'
+
+    def __init__(self, base, prop, what, keep=None):
+        self.__dict__['base'] = base
+        self.__dict__['prop'] = prop
+        self.__dict__['name'] = '%s.lemma.%s' % (prop, what)
+        self.__dict__['keep'] = keep
+        self.__dict__['bounds'] = 'lemmas for the summaries / uninterpreted leaves this check relies on (obligations of %s run under this property): %s' % (
+            base.name, getattr(base, 'bounds', ''))
+
+    def __getattr__(self, k):
+        return getattr(self.__dict__['base'], k)
+
+    def __setattr__(self, k, v):
+        if k == 'symbolic':
+            setattr(self.__dict__['base'], k, v)
+        self.__dict__[k] = v
+
+    def shapes(self, tier):
+        for sh in self.base.shapes(tier):
+            if self.keep is None or self.keep(sh):
+                yield sh
+
+    def mk(self, shape, src): return self.base.mk(shape, src)
+    def impl(self, shape, args): return self.base.impl(shape, args)
+    def spec(self, shape, args): return self.base.spec(shape, args)
+    def stubs(self, shape): return self.base.stubs(shape)
+
+    def describe(self, shape):
+        return '%s %s' % (self.name, shape)
+
+
 class ConcSrc(object):
     "concrete data source: from an environment {var: int} (missing -> 0) or from a seeded RNG"
     symbolic = False
